@@ -15,8 +15,41 @@ class C01(Plugin):
     prop = 'C01'
     n_steps = (1, 12)
 
+    def configure(self, rng):
+        cfg = super().configure(rng)
+        # "which cached answers were populated in between" is part of a history: in a third of the runs read-only
+        # queries and copies (which never count as steps of the property) are interleaved with the edits
+        cfg['p_read'] = rng.choice([0.0, 0.0, 0.25])
+        return cfg
+
     def gen_op(self, rng):
-        return O.gen_edit(rng, self.run.root.a, self.run.cfg)
+        run = self.run
+        if run.cfg.get('p_read') and rng.random() < run.cfg['p_read']:
+            nodes = O.all_nodes(run.root.a)
+            if nodes:
+                from .model import path_str
+                if rng.random() < 0.6:
+                    k = rng.randint(1, max(1, len(nodes) // 3))
+                    return {'k': 'query', 'paths': sorted({path_str(rng.choice(nodes)[0]) for _ in range(k)}), 'level': 2}
+                return {'k': 'read_copy', 'path': [list(p) for p in rng.choice(nodes)[0]]}
+        return O.gen_edit(rng, run.root.a, run.cfg)
+
+    def apply(self, op):
+        run = self.run
+        if op['k'] == 'query':
+            from . import queries
+            queries.query_tree(run.root, op.get('level', 2), set(op['paths']))
+            run.stats['query_ops'] += 1
+            return None
+        if op['k'] == 'read_copy':
+            f = O.resolve_f(run.root, op['path'])
+            try:
+                f.copy()
+            except Exception:
+                pass
+            run.stats['read_copy_ops'] += 1
+            return None
+        return super().apply(op)
 
     def post_op(self, op, ctx, out):
         run = self.run
